@@ -98,6 +98,10 @@ pub struct Solver {
     /// stack of (defined node ids, declared var ids, declared ufs)
     scopes: Vec<(BTreeSet<u32>, BTreeSet<u32>, BTreeSet<String>)>,
     has_den: HashMap<u32, bool>,
+    /// expanded (tree) size of each defined node's macro; nodes above the threshold are emitted
+    /// as named constants so that z3's macro expansion cannot blow up exponentially
+    tree_size: HashMap<u32, u64>,
+    pub name_threshold: u64,
     aux_count: u32,
     pub stats: SolverStats,
     pub transcript: Option<std::fs::File>,
@@ -120,13 +124,14 @@ impl Solver {
     pub fn new(kind: SolverKind, p: u64, timeout_ms: u64) -> Self {
         let mut cmd = match kind {
             SolverKind::Z3 => {
-                let mut c = Command::new("/usr/bin/z3");
-                c.arg("-in");
+                // address-space cap: a runaway query dies instead of eating the machine
+                let mut c = Command::new("sh");
+                c.args(["-c", "ulimit -v 12000000; exec /usr/bin/z3 -in"]);
                 c
             }
             SolverKind::Z3New => {
-                let mut c = Command::new("z3-new");
-                c.arg("-in");
+                let mut c = Command::new("sh");
+                c.args(["-c", "ulimit -v 12000000; exec z3-new -in"]);
                 c
             }
             SolverKind::Cvc5 => {
@@ -157,6 +162,8 @@ impl Solver {
             p,
             scopes: vec![Default::default()],
             has_den: HashMap::new(),
+            tree_size: HashMap::new(),
+            name_threshold: u64::MAX,
             aux_count: 0,
             stats: Default::default(),
             transcript: None,
@@ -193,8 +200,10 @@ impl Solver {
         if let Some(t) = self.transcript.as_mut() {
             let _ = writeln!(t, "{s}");
         }
-        self.stdin.write_all(s.as_bytes()).expect("solver stdin closed");
-        self.stdin.write_all(b"\n").unwrap();
+        if self.stdin.write_all(s.as_bytes()).is_err() {
+            return;
+        }
+        let _ = self.stdin.write_all(b"\n");
     }
 
     /// Send a sync marker and read all output lines up to it.
@@ -202,11 +211,11 @@ impl Solver {
         self.marker += 1;
         let m = format!("SYNC{}", self.marker);
         self.send(&format!("(echo \"{m}\")"));
-        self.stdin.flush().unwrap();
+        let _ = self.stdin.flush();
         let mut out = Vec::new();
         loop {
             let mut line = String::new();
-            let n = self.stdout.read_line(&mut line).expect("solver read");
+            let n = self.stdout.read_line(&mut line).unwrap_or(0);
             if n == 0 {
                 out.push("(error \"solver died\")".to_string());
                 break;
@@ -400,8 +409,30 @@ impl Solver {
                 }
             };
             self.has_den.insert(i, hd);
+            // expanded size of this node's macro = 1 + sizes of the child macros it mentions
+            let kids: Vec<u32> = match &n {
+                Node::Var(_) => vec![],
+                Node::Add(x, y) | Node::Sub(x, y) | Node::Mul(x, y) => [x, y].iter().filter_map(|h| if let H::N(j) = h { Some(*j) } else { None }).collect(),
+                Node::Neg(x) | Node::Inv(x) => [x].iter().filter_map(|h| if let H::N(j) = h { Some(*j) } else { None }).collect(),
+                Node::Uf { args, .. } => args.iter().filter_map(|h| if let H::N(j) = h { Some(*j) } else { None }).collect(),
+            };
+            let mut size: u64 = 1;
+            for k in &kids {
+                size = size.saturating_add(self.tree_size.get(k).copied().unwrap_or(1).saturating_mul(if hd { 2 } else { 1 }));
+            }
+            let named = size > self.name_threshold;
+            self.tree_size.insert(i, if named { 1 } else { size });
             for l in lines {
-                self.send(&l);
+                if named && l.starts_with("(define-fun ") {
+                    // (define-fun NAME () Int BODY)  ->  (declare-const NAME Int) (assert (= NAME BODY))
+                    let rest = &l["(define-fun ".len()..];
+                    let (name, body) = rest.split_once(" () Int ").expect("define-fun shape");
+                    let body = &body[..body.len() - 1];
+                    self.send(&format!("(declare-const {name} Int)"));
+                    self.send(&format!("(assert (= {name} {body}))"));
+                } else {
+                    self.send(&l);
+                }
             }
             self.scopes.last_mut().unwrap().0.insert(i);
         }
@@ -559,10 +590,57 @@ impl Solver {
         self.check_with("(check-sat-using (then (! simplify :som true :som_blowup 1000000) smt))")
     }
 
+    /// Restart the solver process after it died or was killed by the watchdog: the push depth
+    /// is re-established and every definition is forgotten (re-sent lazily by `define`).
+    fn respawn(&mut self) {
+        let depth = self.scopes.len();
+        let mut fresh = Solver::new(self.kind, self.p, self.timeout_ms);
+        std::mem::swap(&mut self.child, &mut fresh.child);
+        std::mem::swap(&mut self.stdin, &mut fresh.stdin);
+        std::mem::swap(&mut self.stdout, &mut fresh.stdout);
+        // `fresh` now owns the dead process and reaps it on drop
+        drop(fresh);
+        self.scopes = vec![Default::default()];
+        for _ in 1..depth {
+            self.push();
+        }
+        self.stats.unknown += 0;
+    }
+
     fn check_with(&mut self, cmd: &str) -> SatResult {
         let t0 = Instant::now();
+        // watchdog: z3 does not always honour :timeout inside its preprocessing; kill it when
+        // it overstays, answer `unknown`, and continue with a fresh process
+        let pid = self.child.id();
+        let deadline = Duration::from_millis(self.timeout_ms.saturating_mul(2) + 5_000);
+        let done = std::sync::Arc::new(std::sync::atomic::AtomicBool::new(false));
+        let done2 = done.clone();
+        let dog = std::thread::spawn(move || {
+            let t = Instant::now();
+            while t.elapsed() < deadline {
+                if done2.load(std::sync::atomic::Ordering::SeqCst) {
+                    return false;
+                }
+                std::thread::sleep(Duration::from_millis(50));
+            }
+            if !done2.load(std::sync::atomic::Ordering::SeqCst) {
+                let _ = Command::new("kill").args(["-9", &pid.to_string()]).status();
+                return true;
+            }
+            false
+        });
         self.send(cmd);
         let out = self.sync();
+        done.store(true, std::sync::atomic::Ordering::SeqCst);
+        let killed = dog.join().unwrap_or(false);
+        if killed || out.iter().any(|l| l.contains("solver died")) {
+            self.stats.queries += 1;
+            self.stats.unknown += 1;
+            self.stats.solver_time_s += t0.elapsed().as_secs_f64();
+            self.slow.push((t0.elapsed().as_secs_f64(), self.label.clone(), "killed-by-watchdog".into()));
+            self.respawn();
+            return SatResult::Unknown("solver exceeded the wall-clock limit or died; restarted".into());
+        }
         let dt = t0.elapsed().as_secs_f64();
         self.stats.queries += 1;
         self.stats.solver_time_s += dt;
